@@ -541,10 +541,21 @@ class Machine:
 
 PRELUDE = """#include <stdint.h>
 #include <string.h>
+#ifndef VERIF_ASM_PRELUDE
+#define VERIF_ASM_PRELUDE
 static inline uint64_t VLD64(const uint8_t *p) { uint64_t v; memcpy(&v, p, 8); return v; }
 static inline uint64_t VLD32(const uint8_t *p) { uint32_t v; memcpy(&v, p, 4); return v; }
 static inline uint64_t VLD8(const uint8_t *p) { return *p; }
 static inline void VST64(uint8_t *p, uint64_t v) { memcpy(p, &v, 8); }
 static inline void VST32(uint8_t *p, uint64_t v) { uint32_t w = (uint32_t)v; memcpy(p, &w, 4); }
 static inline void VST8(uint8_t *p, uint64_t v) { *p = (uint8_t)v; }
+#endif
 """
+
+
+def translate(asm_text, fname, first_round, out_name):
+    """common executor interface (see validate.py): plain permutation, state pointer in %rdi, first_round in %rsi"""
+    prog = Program(asm_text)
+    m = Machine(prog, fname, out_name, {"state": 40}, {"rdi": Ptr("state", 0), "rsi": first_round})
+    body = m.run()
+    return PRELUDE + body, dict(m.report, inputs=len(m.inputs), written=sorted(o for (_, o) in m.stores))
